@@ -322,10 +322,17 @@ impl<'a> ClientRequest<'a> {
                         self.request.query = query.to_string();
                     } else {
                         let new_url = Client::parse_url(l).ok_or("Invalid URL")?;
+                        let mut headers = new_url.host_headers;
+
+                        // The body is sent again, so it still needs to be delimited
+                        if let Some(content) = &self.request.content {
+                            headers.add(HeaderType::ContentLength, content.len().to_string());
+                        }
+
                         let request = Request {
                             method: self.request.method,
                             uri: new_url.path,
-                            headers: new_url.host_headers,
+                            headers,
                             query: new_url.query,
                             version: "HTTP/1.1".to_string(),
                             content: self.request.content,
